@@ -11,10 +11,14 @@ Models: `Juniper/Model/XTime.lean` (defined in terms of `Juniper.Gen.XTime`, reg
 
 All theorems are *partial by nature* in one respect that no model of the code can remove: that the
 Go runtime never fires a timer (or a context deadline) early and that `time.Now` is monotone is part
-of the LTS (`fire`/`arm` are enabled only when `due ≤ now`, `advance` only moves forward), i.e. trusted.
+of the LTS (`fire`/`arm` are enabled only when `due ≤ now`, `advance` only moves forward), i.e. trusted;
+so is the mutual exclusion `sync.Mutex` gives the critical sections of `JitterTicker` (each is one
+label; the statement skeletons that justify this are regenerated and consumed, see
+`no_tick_after_stop`). `SleepContext`'s durations are compared, never added: its arithmetic cannot
+overflow. The arithmetic of `JitterTicker.schedule` is modelled over int64 / uint64 (see below).
 -/
 namespace Juniper.Props.C20
-open Juniper.Gen.XTime Juniper.Model.XTime
+open Juniper.Facts Juniper.Gen.XTime Juniper.Model.XTime
 open Juniper.Proofs.XTimeSleep Juniper.Proofs.XTimeTicker
 
 /-! ## SleepContext -/
@@ -104,31 +108,46 @@ theorem sleep_ctx_error_only_if_ctx_ended {s0 s : SState} (h0 : s0.phase = .idle
 example : ∃ s, SReach (sInit 0 5 none false) s ∧ s.phase = .waiting 5 ∧ s.ctxDone = true ∧ s.now < 5 :=
   ⟨_, sreach_of_runS [.enter, .advance 2, .cancel] _ _ _ .refl rfl, by decide, by decide, by decide⟩
 
-/-! ## JitterTicker -/
+/-! ## JitterTicker
 
-/-- *created or Reset with any d > 0 and any jitter with 0 ≤ jitter < d does not panic*: creation
-succeeds for some value of `rand.Int63n` (its precondition holds), and from then on — for every
-schedule of clock advances, timer firings, callback runs, receives, `Reset`s and `Stop`s inside the
-protocol — no call with documented arguments panics and the ticker never dies holding its mutex. -/
-theorem ticker_no_panic {now d j : Int} (hd : 0 < d) (hj0 : 0 ≤ j) (hj : j < d) :
-    (∃ s0, create now d j 0 = some s0) ∧
+`d` and `jitter` range over **all** Go `time.Duration` values of the documented domain,
+`0 ≤ jitter < d ≤ MaxInt64`: the arithmetic of `schedule` (the argument of `rand.Int63n`, the
+condition of the rejection loop over `rand.Uint64`, `d - jitter`, the saturation test, `next`) is
+regenerated from the source with Go's wrap-around int64 / uint64 semantics
+(`Juniper.Facts.wrap64`, `wrapU64`), and `drawOk_eq` / `schedNext_eq` prove that nothing wraps.
+Instants (the clock, due times, timestamps) are mathematical integers; that the runtime fires a timer
+armed with `next` no earlier than `now + next` (it saturates its own `when` when that sum exceeds the
+runtime clock - such a timer never fires) is the trusted runtime statement. -/
+
+/-- *created or Reset with any d > 0 and any jitter with 0 ≤ jitter < d does not panic*, for every
+int64 `d ≤ MaxInt64`: creation succeeds for exactly the values `0 … 2·jitter` of the random source
+(the precondition of `rand.Int63n` holds where it is called; above 2^62 the rejection loop over
+`rand.Uint64` is used), and from then on — for every schedule of clock advances, timer firings,
+callback runs, receives, `Reset`s and `Stop`s inside the protocol — no call with documented arguments
+panics and the ticker never dies holding its mutex. -/
+theorem ticker_no_panic {now d j : Int} (hd : 0 < d) (hj0 : 0 ≤ j) (hj : j < d) (hmax : d ≤ maxInt64) :
+    (∀ r, (∃ s0, create now d j r = some s0) ↔ (0 ≤ r ∧ r ≤ 2 * j)) ∧
     ∀ r s0, create now d j r = some s0 →
       s0.lastPanic = false ∧ s0.panicked = false ∧
       ∀ s, TReachP s0 s → s.panicked = false ∧
         ∀ l s', Proto s l → (∀ d' j' r', l = .reset d' j' r' → 0 < d' ∧ j' < d') → tstep s l = some s' →
           s'.lastPanic = false ∧ s'.panicked = false := by
   constructor
-  · unfold create
-    have h1 : (newPanicsD d j || newPanicsJ d j) = false := by simp [newPanicsD, newPanicsJ]; omega
-    simp only [h1]
-    exact schedule_enabled _ hj0
+  · intro r
+    unfold create
+    simp only [newPanics_false hd hj]
+    constructor
+    · rintro ⟨s0, h⟩
+      obtain ⟨h1, h2, _⟩ := schedule_spec (s := _) hj0 hj hmax h
+      exact ⟨h1, h2⟩
+    · rintro ⟨h1, h2⟩
+      exact schedule_enabled _ hj0 hj hmax h1 h2
   · intro r s0 hc
-    have hi0 := tinv_create hd hj0 hj hc
+    have hi0 := tinv_create hd hj0 hj hmax hc
     refine ⟨?_, hi0.alive, ?_⟩
     · unfold create at hc
-      have h1 : (newPanicsD d j || newPanicsJ d j) = false := by simp [newPanicsD, newPanicsJ]; omega
-      simp only [h1] at hc
-      obtain ⟨_, _, rfl⟩ := schedule_spec (s := _) hj0 hc
+      simp only [newPanics_false hd hj] at hc
+      obtain ⟨_, _, rfl⟩ := schedule_spec (s := _) hj0 hj hmax hc
       rfl
     · intro s hr
       have hi := tinv_reach hi0 hr
@@ -149,14 +168,27 @@ theorem ticker_no_panic {now d j : Int} (hd : 0 < d) (hj0 : 0 ≤ j) (hj : j < d
 example : (create 0 5 0 0).isSome = true ∧ (create 0 5 4 8).isSome = true ∧
     ((create 0 5 0 0).bind fun s => tstep s (.reset 1 0 0)).isSome = true := by decide
 
-/-- *consecutive ticks are never less than d minus jitter apart*: in every state reachable inside the
-protocol, any two consecutive entries of the log of ticks put into the channel (`sent`, newest
-first; each entry = the `time.Now()` carried by the tick and the `d - jitter` in force when it was
-sent) are at least that `d - jitter` apart. -/
+/-- the D21 configurations: `d = MaxInt64, jitter = MaxInt64 - 1` (2·jitter + 1 does not fit into an
+int64: the old code panicked in `rand.Int63n`) with the largest draw, and `d = MaxInt64,
+jitter = 2^61` with a draw for which `d - jitter + r` exceeds MaxInt64 (the old code armed the timer
+with a negative duration): created without panic, the timer is due `MaxInt64` ns from now
+(saturated); a `Reset` to such a pair does not panic either. -/
+example : ((create 0 maxInt64 (maxInt64 - 1) (2 * (maxInt64 - 1))).map fun s => (s.panicked, s.timer)) =
+      some (false, some ⟨maxInt64, 1⟩) ∧
+    ((create 0 maxInt64 2305843009213693952 4611686018427387904).map fun s => (s.panicked, s.timer)) =
+      some (false, some ⟨maxInt64, 1⟩) ∧
+    (((create 0 5 0 0).bind fun s => tstep s (.reset maxInt64 (maxInt64 - 1) 7)).map fun s => (s.lastPanic, s.timer)) =
+      some (false, some ⟨maxInt64 - (maxInt64 - 1) + 7, 2⟩) := by decide
+
+/-- *consecutive ticks are never less than d minus jitter apart*, for every int64 `d ≤ MaxInt64`: in
+every state reachable inside the protocol, any two consecutive entries of the log of ticks put into
+the channel (`sent`, newest first; each entry = the `time.Now()` carried by the tick and the
+`d - jitter` in force when it was sent) are at least that `d - jitter` apart. -/
 theorem ticker_spacing_ge {now d j r : Int} {s0 s : TState} (hd : 0 < d) (hj0 : 0 ≤ j) (hj : j < d)
-    (hc : create now d j r = some s0) (hr : TReachP s0 s) (i : Nat) (h : i + 1 < s.sent.length) :
+    (hmax : d ≤ maxInt64) (hc : create now d j r = some s0) (hr : TReachP s0 s) (i : Nat)
+    (h : i + 1 < s.sent.length) :
     (s.sent[i + 1]'h).1 + (s.sent[i]'(by omega)).2 ≤ (s.sent[i]'(by omega)).1 :=
-  spaced_get s.sent (tinv_reach (tinv_create hd hj0 hj hc) hr).spaced i h
+  spaced_get s.sent (tinv_reach (tinv_create hd hj0 hj hmax hc) hr).spaced i h
 
 /-- a reachable state with three ticks, one of them after a `Reset` to a tighter period -/
 example : ∃ s0 s, create 0 5 2 3 = some s0 ∧ TReachP s0 s ∧ s.sent = [(13, 2), (10, 3), (6, 3)] := by
@@ -168,12 +200,19 @@ example : ∃ s0 s, create 0 5 2 3 = some s0 ∧ TReachP s0 s ∧ s.sent = [(13,
 /-- *No tick is sent after Stop returns*: after a `Stop` on a running ticker (reachable inside the
 protocol), no run of labels other than `Reset` — clock advances, the firing of a timer that raced
 with the `Stop`, the callback goroutine it started, receives, even a second `Stop` — puts a tick
-into the channel: the log of sent ticks stays what it was when `Stop` was called. -/
+into the channel: the log of sent ticks stays what it was when `Stop` was called.
+
+That the callback (lock; `t.gen == gen`; send; re-arm; unlock), `Stop` and `Reset` are single labels
+is justified by the regenerated statement lists of the three critical sections having exactly that
+shape (`cb_skeleton`, `stop_skeleton`, `reset_skeleton`, consumed by `tinv_step`): with the test
+hoisted out of the lock, the send moved behind `Unlock`, or `t.gen++` undone in `Stop`, this theorem
+no longer compiles. What the mutex itself guarantees is trusted (Go runtime) and searched by the
+real-threads phase of the harness. -/
 theorem no_tick_after_stop {now d j r : Int} {s0 s s1 s2 : TState} (hd : 0 < d) (hj0 : 0 ≤ j) (hj : j < d)
-    (hc : create now d j r = some s0) (hr : TReachP s0 s) (hrun : s.stopped = false)
+    (hmax : d ≤ maxInt64) (hc : create now d j r = some s0) (hr : TReachP s0 s) (hrun : s.stopped = false)
     (hstop : tstep s .stop = some s1) (hafter : RunNoReset s1 s2) :
     s2.sent = s.sent := by
-  have hi := tinv_reach (tinv_create hd hj0 hj hc) hr
+  have hi := tinv_reach (tinv_create hd hj0 hj hmax hc) hr
   obtain ⟨hs1, he1⟩ := stop_establishes hi hrun hstop
   exact (stopped_run hs1 hafter).2.trans he1
 
